@@ -422,7 +422,22 @@ fn weekday_fixed_body(offset: i64) {
     vcover!("weekday.miss_by_position", !got && in_wrapping(s.num_days_from_monday(), e.num_days_from_monday(), wd));
 }
 
-//@H props=C01,C02,C04 tier=quick kind=complete cap=1500 domain="offset 0: all weekday ranges x all nth masks x all dates 1900..9999"
+//@H props=C02,C04 tier=quick kind=complete cap=600 domain="all weekday ranges x all nth masks x any day offset x all dates 1900..9999"
+#[cfg_attr(kani, kani::proof)]
+#[cfg_attr(kani, kani::unwind(3))]
+#[cfg_attr(verif_replay, test)]
+fn weekday_fixed_has_no_hint() {
+    let (s, e) = (any_weekday(), any_weekday());
+    let nth_from_start = [nd::bool(), nd::bool(), nd::bool(), nd::bool(), nd::bool()];
+    let nth_from_end = [nd::bool(), nd::bool(), nd::bool(), nd::bool(), nd::bool()];
+    let r = ds::WeekDayRange::Fixed { range: s..=e, offset: nd::i64(), nth_from_start, nth_from_end };
+    let d = any_date();
+    // a weekday selector may change from one day to the next: it must not let the iterator skip any day
+    vpost!("C02.weekday.fixed_has_no_hint", r.next_change_hint(d, &ctx()).is_none());
+    vcover!("weekday_no_hint.reachable", true);
+}
+
+//@H tier_C04=thorough props=C01,C04 tier=quick kind=complete cap=1500 domain="offset 0: all weekday ranges x all nth masks x all dates 1900..9999"
 #[cfg_attr(kani, kani::proof)]
 #[cfg_attr(kani, kani::unwind(3))]
 #[cfg_attr(verif_replay, test)]
@@ -562,7 +577,7 @@ fn holiday_hint_body(two: bool) {
     vcover!("holiday_hint.negative_offset", offset < 0 && r.filter(d, &c));
 }
 
-//@H props=C02,C08,C04 tier=quick kind=bounded cap=1800 bound="|day offset| <= 1; calendars abstracted by 1 symbolic holiday each" domain="both kinds x all dates x all intermediate dates"
+//@H tier_C04=thorough props=C02,C08,C04 tier=quick kind=bounded cap=1800 bound="|day offset| <= 1; calendars abstracted by 1 symbolic holiday each" domain="both kinds x all dates x all intermediate dates"
 #[cfg_attr(kani, kani::proof)]
 #[cfg_attr(kani, kani::unwind(3))]
 #[cfg_attr(kani, kani::stub(compact_calendar::CompactCalendar::contains, calendar_contains_model))]
